@@ -243,7 +243,12 @@ func (f *Font) selectWidths() (float64, float64) {
 	if numGlyphs == 0 {
 		return 0, 0
 	} else if numGlyphs == 1 {
-		return f.Glyphs[0].Width, f.Glyphs[0].Width
+		w := f.Glyphs[0].Width
+		if w != math.Trunc(w) {
+			// The private DICT stores both values as integers.
+			return 0, math.Round(w)
+		}
+		return w, w
 	}
 
 	widthHist := make(map[float64]int32)
@@ -251,7 +256,9 @@ func (f *Font) selectWidths() (float64, float64) {
 	var defaultWidth float64
 	for _, glyph := range f.Glyphs {
 		w := glyph.Width
-		if math.Abs(w) > 32767 {
+		if math.Abs(w) > 32767 || w != math.Trunc(w) {
+			// The default width is stored as an integer in the private
+			// DICT, so only integral widths can be represented exactly.
 			continue
 		}
 		widthHist[w]++
@@ -284,6 +291,8 @@ func (f *Font) selectWidths() (float64, float64) {
 	} else if nominalWidth > maxWidth-107 {
 		nominalWidth = maxWidth - 107
 	}
+	// The nominal width is stored as an integer in the private DICT.
+	nominalWidth = math.Round(nominalWidth)
 	return defaultWidth, nominalWidth
 }
 
